@@ -78,10 +78,27 @@ def gen_case(seed, i):
             dargs += ["-n", str(n)]
     if rng.random() < 0.2:
         dargs += ["--no-lock"]
-    return {"i": i, "cfg": cfg, "world": world.to_json(), "roots": roots, "gflags": gflags, "fmt": rng.choice(["default", "json"]),
+    fmt_ = rng.choice(["default", "json"])
+    op_ = rng.choice(["link", "softlink"]) if (sym and rng.random() < 0.5) else rng.choice(ops.OPS)
+    sseed_ = rng.randint(1, 10**9)
+    # the last root lies on a second device (the seam presents its inodes with another st_dev): hard links and
+    # reflinks cannot cross devices, a class with members on both is handled per device - with a class that has
+    # several members on each, and mostly with the operations concerned and a quota above one
+    two_devs = nroots >= 2 and not isolate and rng.random() < 0.25
+    if two_devs:
+        ln_ = rng.choice([1, 40, 3000])
+        for k_, r_ in enumerate([roots[0]] * rng.randint(2, 3) + [roots[-1]] * rng.randint(2, 3)):
+            world.add_file("%s/xd%d" % (r_, k_), {"fam": 700, "len": ln_, "flips": []})
+        if rng.random() < 0.7:
+            op_ = rng.choice(["link", "dedupe"])
+        if rng.random() < 0.6:
+            dargs = [x for k2, x in enumerate(dargs) if not (x == "-n" or (k2 > 0 and dargs[k2 - 1] == "-n"))]
+            n = rng.choice([2, 3, 3, 4])
+            dargs += ["-n", str(n)]
+    return {"i": i, "cfg": cfg, "world": world.to_json(), "roots": roots, "gflags": gflags, "fmt": fmt_, "two_devs": two_devs,
             # reports with symbolic links as members: the link operations are where a link as the retained
             # member matters, so they get half of those cases
-            "op": rng.choice(["link", "softlink"]) if (sym and rng.random() < 0.5) else rng.choice(ops.OPS), "dargs": dargs, "n": n, "rf": rf, "seam_seed": rng.randint(1, 10**9)}
+            "op": op_, "dargs": dargs, "n": n, "rf": rf, "seam_seed": sseed_}
 
 
 def gen_cases(tier, seed):
@@ -175,7 +192,14 @@ def run_case(case):
         roots = [os.path.join(rd.wb(), s2b(r)) for r in case["roots"]]
         env = gen.cfg_env(cfg)
         gargs = gen.cfg_args(cfg) + case["gflags"] + (["-f", "json"] if case["fmt"] == "json" else [])
-        g = ops.group(rd, roots, gargs, env=env, seed=case["seam_seed"], now_ns=T0_NS)
+        labels = None
+        if case.get("two_devs"):
+            labels = {}
+            for dp_, dns_, fns_ in os.walk(roots[-1]):
+                for x_ in [dp_] + [os.path.join(dp_, f_) for f_ in fns_]:
+                    if not os.path.islink(x_):
+                        labels[os.lstat(x_).st_ino] = {"dev": 7002}
+        g = ops.group(rd, roots, gargs, env=env, seed=case["seam_seed"], now_ns=T0_NS, labels=labels)
         if g.rc != 0 or g.timed_out:
             return {"violations": [], "nontrivial": False, "sig": None, "probes": {"group_failed": 1}, "invocations": 1,
                     "info": {"group_rc": g.rc, "err": g.err.decode("utf-8", "replace")[-200:]}}
@@ -184,7 +208,7 @@ def run_case(case):
         if case["fmt"] == "json":
             rep = report.parse_json(g.out)
         else:
-            gj = ops.group(rd, roots, gargs + ["-f", "json"], env=env, seed=case["seam_seed"], now_ns=T0_NS)
+            gj = ops.group(rd, roots, gargs + ["-f", "json"], env=env, seed=case["seam_seed"], now_ns=T0_NS, labels=labels)
             rep = report.parse_json(gj.out)
         if case["op"] == "move" and case["i"] % 3 == 0:
             # something unrelated already lives at the mapped location of one listed file
@@ -205,7 +229,7 @@ def run_case(case):
         for grp in rep.groups:
             groups.append((grp, replicas_of(grp.paths, before, rd, case)))
         res = ops.dedupe(rd, case["op"], g.out, extra=case["dargs"], target=os.path.join(rd.world, "T"), env=env,
-                         now_ns=T0_NS + 3600 * 10**9, seed=case["seam_seed"] + 1)
+                         now_ns=T0_NS + 3600 * 10**9, seed=case["seam_seed"] + 1, labels=labels)
         after = inventory(rd.world)
         op = case["op"]
 
